@@ -11,13 +11,13 @@ ASSUME = [
 ]
 INVS = ["IdleNoAccess", "LockedWhileLive", "ClosedGone", "ReadAfterClose", "FailedCreateLeavesNothing", "FailedCreateNoSecret",
         "FailedOpenLeavesNoAccess", "NeverDirtyRelease", "InUseBalanced"]
-TC = {"Impls": tla_set(["pm", "mg"]), "MaxCalls": 1000000, "MaxFaults": 1000000, "MaxPrim": 5}
+TC = {"Impls": tla_set(["pm", "mg"]), "MaxCalls": 1000000, "MaxFaults": 1000000, "MaxPrim": 5, "PanicReads": "TRUE"}
 
 
-def seq_part(run, max_calls, max_faults, label, view="GenView"):
+def seq_part(run, max_calls, max_faults, label, view="GenView", panic_reads=False):
     run.spec_files("SecMem.tla", "SecMemGen.tla", "SecMemTrace.tla")
-    run.write("GEN_%s.cfg" % label, cfg_text("GSpec", {"Impls": tla_set(["pm", "mg"]), "MaxCalls": max_calls, "MaxFaults": max_faults, "MaxPrim": 5},
-                                             invs=INVS, view=view))
+    run.write("GEN_%s.cfg" % label, cfg_text("GSpec", {"Impls": tla_set(["pm", "mg"]), "MaxCalls": max_calls, "MaxFaults": max_faults, "MaxPrim": 5,
+                                                      "PanicReads": "TRUE" if panic_reads else "FALSE"}, invs=INVS, view=view))
     g = run.tlc("SecMemGen.tla", "GEN_%s.cfg" % label, timeout=1500, out_name="gen_%s.out" % label)
     run.tlc_must_hold(g, "SecMem.tla design check (%s)" % label)
     binary = run.gobin("memdrv")
@@ -145,6 +145,7 @@ def conc_part(run, q):
 def check_C12(run: Run):
     q = run.quick
     seq_part(run, 4 if q else 6, 2, "faults", view=None if q else "GenView")
+    seq_part(run, 3 if q else 4, 1, "faults+panicking-callbacks", view=None, panic_reads=True)
     if not q:
         seq_part(run, 5, 2, "faults-sequences", view=None)
     return run.finish("model_checking",
@@ -156,6 +157,7 @@ def check_C11(run: Run):
     q = run.quick
     # fault-free API sequences (deeper; the call counter is part of the state so every sequence is a case)
     seq_part(run, 5 if q else 6, 0, "sequences", view=None)
+    seq_part(run, 4 if q else 5, 0, "sequences+panicking-callbacks", view=None, panic_reads=True)
     conc_part(run, q)
     return run.finish("model_checking",
                       "sequential: every API sequence of SecMem.tla without faults up to the bound (New/CreateRandom, WithBytes, WithBytesFunc, Reader, Close, repeated Close) on real secrets of 1 B .. 3 pages, kernel page state (mapped, PROT_NONE idle / read-only in callback, mlock'd, MADV_DONTDUMP, unmapped after Close) validated by TLC; concurrent: SecMemConc.tla (3 readers x 2 closers, incl. liveness) checked by TLC, and R readers (nested every second read) x C closers on real secrets explored under the cooperative scheduler (random, PCT, <= 2 preemptions), each schedule validated by TLC against SecMemConcTrace.tla. non-trivial = sequence with a read and a close / schedule with a preemption",
